@@ -176,7 +176,10 @@ def Cyclic (reg : Registry) (a : Site) : Prop :=
   (∃ b, (b = a ∨ UsesPlus reg a b) ∧ UsesPlus reg b b)
 
 /-- No name denotes two typedefs (RFC 7950: a typedef name is declared once per scope, once per
-module and its submodules; prefixes of imports are distinct). -/
+module and its submodules; prefixes of imports are distinct).
+NOTE: as written this quantifies over every conceivable site, made-up enclosing statements
+included, and holds of NO registry (`Goyang.Props.C09.unambiguous_false`).  The usable form is
+`Goyang.Lemmas.TypesDefs.UnambiguousBelow reg site` (only the sites met while resolving `site`). -/
 def Unambiguous (reg : Registry) : Prop :=
   ∀ root scope name m td sc m' td' sc', Binds reg root scope name m td sc → Binds reg root scope name m' td' sc' →
     m = m' ∧ td = td' ∧ sc = sc'
